@@ -245,21 +245,52 @@ static void op_crash_sync(Exec& x, const Json& op, int)
 			if (!ok) x.violation("C07", "no-loadable-content-after-interruption", when + strf(": %s exit=%d: ", cname, q.exit_code) + first_lines(q.err), focus);
 		}
 		Snap crash_state;
+		Snap pre_data_for_resync;
+		bool undone = false;
 		// --force-realloc is documented as "not having data protection during the operation": no recoverability demand
 		bool realloc = std::find(spec.opts.begin(), spec.opts.end(), std::string("-R")) != spec.opts.end();
 		bool want_d = additions_only && !realloc && x.have_synced && ndev > 0 && (cs.k % 4) == 0;
 		if (want_d) crash_state = x.sb.snapshot_all();
+		// between the interruption and the next sync the user may undo part of the pending changes: for a third of the cases
+		// every file of the last clean sync that the pending changes had removed is put back (same bytes, same stamp, new inode)
+		if (!additions_only && x.have_synced && (cs.k % 3) == 1) {
+			Snap nowd = x.sb.snapshot(x.sb.data_tops());
+			unsigned put = 0;
+			for (auto& kv : x.synced) {
+				if (kv.second.type != 'f' || nowd.count(kv.first)) continue;
+				bool tool = false;
+				for (auto& c : x.sb.cfg.content) if (kv.first == c || starts_with(kv.first, c + ".")) tool = true;
+				if (tool) continue;
+				// only where the path is free (a directory or link may have replaced a component)
+				std::string parent = kv.first.substr(0, kv.first.rfind('/'));
+				auto pit = nowd.find(parent);
+				if (parent.find('/') != std::string::npos && (pit == nowd.end() || pit->second.type != 'd')) continue;
+				if (x.sb.put_file(kv.first, kv.second.data, kv.second.mtime_s, kv.second.mtime_ns, true)) ++put;
+			}
+			if (put) x.probe("crash.deletions_undone_before_resync", put);
+			pre_data_for_resync = data_only(x, x.sb.snapshot(x.sb.data_tops()));
+			undone = put > 0;
+		}
 		// (e) sync again completes, then everything verifies
 		{
 			CmdSpec again;
 			again.cmd = "sync";
 			if (!additions_only) again.opts = { "-E", "-Z" }; // the same overrides the interrupted command had
 			again.sched_seed = mix64(spec.sched_seed, cs.k);
+			// after an undo the completing sync may be (rightly) refused, leaving the crash state judged above as it is
+			bool keep = x.check_parity_every_cmd;
+			if (undone) x.check_parity_every_cmd = false;
 			CmdResult q = x.cmd(again);
-			if (q.exit_code != 0) x.violation("C07", "resync-failed", when + strf(": sync again exit=%d: ", q.exit_code) + first_lines(q.err), focus);
+			x.check_parity_every_cmd = keep;
+			if (undone && q.exit_code == 0) x.check_parity_invariant(when + " (resync after undo)");
+			if (q.exit_code != 0 && undone && q.err.find("smaller than expected") != std::string::npos)
+				// consequence of the known shape: the interrupted sync had already truncated the parity of the files whose deletion the
+				// user then undid; sync rightly asks for --force-full
+				x.violation("C07", "parity-shrunk-before-content-save", when + ": parity too short for the files put back after the interruption: sync again refuses without --force-full", focus);
+			else if (q.exit_code != 0) x.violation("C07", "resync-failed", when + strf(": sync again exit=%d: ", q.exit_code) + first_lines(q.err), focus);
 			else {
 				Snap now = data_only(x, x.sb.snapshot(x.sb.data_tops()));
-				std::string d = snap_diff(pre_data, now, true);
+				std::string d = snap_diff(undone ? pre_data_for_resync : pre_data, now, true);
 				if (!d.empty()) x.violation("C07", "data-modified-by-sync", when + " (resync): " + d, focus);
 				if (trace_saved_content(x.sb, q)) check_copies_identical(x, when + " (resync)", focus);
 				CmdResult c = x.simple("check");
